@@ -162,6 +162,8 @@ func TestStoreStatus(t *testing.T) {
 		r.TerminateEmbededStorage()
 		mr.Close()
 	}
+	jit := vt.StartJitter()
+	defer jit.Stop()
 	// etcd: real time, VERIF_PAR sequences at a time
 	sem := make(chan struct{}, vt.EnvInt("VERIF_PAR", 64))
 	var wg sync.WaitGroup
@@ -175,7 +177,12 @@ func TestStoreStatus(t *testing.T) {
 		go func(j job) {
 			defer wg.Done()
 			defer func() { <-sem }()
-			emit(runStatus(ctx, be.etcd, "etcd", j.run, j.ops, realClock{time.Now()}))
+			tStart := time.Now()
+			evs := runStatus(ctx, be.etcd, "etcd", j.run, j.ops, realClock{tStart})
+			if jit.StarvedSince(tStart) { // real-time lifetimes cannot be judged when the process was starved of CPU
+				return
+			}
+			emit(evs)
 		}(j)
 	}
 	wg.Wait()
